@@ -155,6 +155,15 @@ class TierHistory:
             if ents and r.random() < 0.4:
                 i = r.randrange(len(ents))
                 ents[i] = nt(*ents[i][:-1], r.choice([" pad", "pad \n", "\tx y\t"]))
+        if self.hostile and isinstance(ents, list) and ents and r.random() < 0.03 and all(isinstance(e, tuple) for e in ents):
+            # a time axis that ends at zero (times counted back from an event), or a tier that consists of one mark at time 0: the
+            # tier's end is exactly 0
+            if klass is self.P and r.random() < 0.4:
+                return self._run("construct", None, klass, (r.choice(HNAMES), [(0.0, ents[0][-1])], None, None))
+            top = ents[-1][-2]
+            moved = [tuple(v - top for v in e[:-1]) + (e[-1],) for e in ents]
+            if all(e[0] < e[-2] for e in moved) or klass is self.P:
+                return self._run("construct", None, klass, (r.choice(HNAMES), moved, r.choice([None, moved[0][0] - 0.5]), r.choice([None, 0.0, 0])))
         lo = r.choice([0.0, 0.0, None, self.src(self.hi) / 4])
         hi = r.choice([self.hi, None, self.hi + self.src(self.hi)])
         if not ents and (lo is None or hi is None):
